@@ -34,6 +34,9 @@ uint8_t sym_in[N + 1], sym_stale[B];
 #ifdef OB_SETCTR
 uint8_t sym_cnt[BLK + 1];
 #endif
+#ifdef OB_REKEY
+uint8_t sym_stale[B], sym_newkey[48];
+#endif
 
 /* counter value C + m (m may be negative), big-endian, modulo 2^(8*BLK): written independently of the library */
 static void ctr_plus(uint8_t *out, const uint8_t *c, int m)
@@ -147,6 +150,67 @@ void harness(void)
             int blockno = (int)(g * L) - L + (int)(pos / BLK);
             if (blockno != have) { ctr_plus(blkc, sym_C, blockno); oracle_E(e, blkc, &ks); have = blockno; }
             CHECK(get_ecounter(pos) == e[pos % BLK], "unused buffered keystream is the encryption of the counters it stands for");
+        }
+    }
+#elif defined(OB_REKEY)
+    /* key / tweak change in mid-stream: whatever the back end does with its buffer, it must not keep keystream that was
+       generated under the old key or tweak, and its lanes must stay staggered (Inv again, under the NEW schedule) */
+    uint8_t blkc[BLK], e[BLK], lane0[BLK];
+    SYM_U8A(sym_stale); SYM_U8A(sym_newkey);
+    arbitrary_schedule(&ks);
+#if VEC
+    { uint8_t nd[V_SIZE]; memcpy(vctx, nd, V_SIZE); }
+    memcpy(vctx, &ks, sizeof ks);
+    for (int j = 0; j < L; j++) { ctr_plus(blkc, sym_C, j); v_set_lane(vctx, j, blkc); }
+    V_OFF(vctx) = O;
+    for (unsigned pos = 0; pos < B; pos++) vctx[V_ECOUNTER + pos] = sym_stale[pos];      /* old keystream: any bytes */
+#else
+    { GCTX_T nd; gctx = nd; }
+    KS_OF(&gctx) = ks; memcpy(gctx.counter, sym_C, BLK); gctx.offset = O;
+    for (unsigned pos = 0; pos < B; pos++) gctx.ecounter[pos] = sym_stale[pos];
+#endif
+    int r;
+#if OP == 1
+#if CIPHER == 3
+#if VEC
+    r = (int)VF(set_key)((uint8_t *)&vh, sym_newkey, 16, 5 + (KLEN & 3));
+#else
+    r = PUB(set_key)(&h, sym_newkey, 16, 5 + (KLEN & 3));
+#endif
+#else
+#if VEC
+    r = (int)VF(set_key)((uint8_t *)&vh, sym_newkey, KLEN);
+#else
+    r = PUB(set_key)(&h, sym_newkey, KLEN);
+#endif
+#endif
+#elif OP == 2
+#if VEC
+    r = (int)VF(set_tweaked_key)((uint8_t *)&vh, sym_newkey, KLEN);
+#else
+    r = PUB(set_tweaked_key)(&h, sym_newkey, KLEN);
+#endif
+#else
+#if VEC
+    r = (int)VF(set_tweak)((uint8_t *)&vh, sym_newkey, KLEN);
+#else
+    r = PUB(set_tweak)(&h, sym_newkey, KLEN);
+#endif
+#endif
+    CHECK(r == 1, "the key / tweak change is accepted");
+    get_lane(0, lane0);
+    check_lanes(lane0, "counter lanes stay staggered c, c+1, ... across a key or tweak change");
+    if (get_offset() < B) {
+        /* some keystream is still considered buffered: it must be the encryption, under the NEW schedule, of the counters it stands for */
+        static KS_T now;
+#if VEC
+        memcpy(&now, vctx, sizeof now);
+#else
+        now = KS_OF(&gctx);
+#endif
+        for (unsigned pos = get_offset(); pos < B; pos++) {
+            ctr_plus(blkc, lane0, (int)(pos / BLK) - L); oracle_E(e, blkc, &now);
+            CHECK(get_ecounter(pos) == e[pos % BLK], "no keystream generated under the old key or tweak is used after the change");
         }
     }
 #elif defined(OB_SETCTR)
